@@ -143,7 +143,8 @@ class InheritanceStrategy(Enum):
 
 
 def module_and_class_name(t: Union[Type, _SpecialForm]) -> str:
-    return f"{t.__module__}.{t.__name__}"
+    # the qualified name: a class (an enum) that is defined inside another class is reached through that class
+    return f"{t.__module__}.{getattr(t, '__qualname__', t.__name__)}"
 
 
 def is_direct_subclass(cls: Type, *bases: Type) -> bool:
